@@ -274,6 +274,13 @@ fn generate_synthetic(run_seed: u64, mode: Mode, mut w: Rng, f: Rng) -> Scenario
               faults.fired.inc("rename_to_self");
               src.clone()
             }
+            2 | 3 | 4 if universe.iter().any(|m| !belief.contains_key(m)) => {
+              // onto a name of the universe that does not exist right now (never created, removed
+              // or renamed away) and that other modules may already import: heals their imports
+              let absent: Vec<ModName> = universe.iter().filter(|m| !belief.contains_key(*m)).cloned().collect();
+              faults.fired.inc("rename_onto_absent_but_imported_name");
+              w.pick(&absent).clone()
+            }
             _ => {
               fresh_names += 1;
               if w.chance(1, 2) { vec![format!("Renamed{fresh_names}")] } else { vec!["RenamedDirectoryWithLongName".into(), format!("Module{fresh_names}")] }
